@@ -25,6 +25,11 @@ try:
 except ImportError:
     pass
 try:
+    from . import captureforms
+    FAMILIES["captureforms"] = captureforms
+except ImportError:
+    pass
+try:
     from . import misc
     FAMILIES["misc"] = misc
 except ImportError:
